@@ -25,6 +25,14 @@ def scenarios(quick):
                         out.append(scenario(st, fns, base))
                         if not quick or pat in ("FFFF", "FSFS"):
                             out.append(scenario(st, fns, base + [env("CtxCancel", 3, 3)]))
+    # a trial the breaker counts as a success although something inside it failed (inner retries exceeded / inner timeout on an
+    # error the breaker does not handle) still has to give its permit back
+    for c in (brk(1, 1, 2, sthr=2, scap=2), brk(1, 1, 2)):
+        for inner in ([retry(0)], [to(1)], [fb(fr="R0", fe="EFB", h=[cE("E3")])]):
+            st = [cb("c", c, h=[cE("E2")])] + inner
+            fns = [[fn(1, "R0", "E2", True)] * 2, [fn(2, "R0", "E1", True)] * 2, [fn(2, "R0", "E1", True)] * 2, [fn(1, "R1", None, True)] * 2]
+            out.append(scenario(st, fns, [start(1, 0), start(2, 3), start(3, 6), start(4, 9)]))
+            out.append(scenario(st, fns, [start(1, 0), start(2, 3), start(3, 3), start(4, 7, True)]))
     return out
 
 
@@ -46,7 +54,7 @@ def run(ctx):
     tmc.model_check(ctx, "cb", model_scenarios(), ["MC_NoStuckThread", "MC_AllReturn", "MC_C04", "MC_TrialPermits"])
     scs = scenarios(ctx.tier == "quick")
     if ctx.tier == "quick":      # several concurrent executions make validation expensive: every 6th scenario, offset by the seed
-        scs = scs[ctx.seed % 6::6]
+        scs = scs[ctx.seed % 6::6] + scs[-12:]
     p_c07.run_family(ctx, "cb", scs, props=("C04",))
     return vlib.finish(ctx, rule="4 breaker configurations (thresholds 1-2, success thresholds, delay 2-3) x 4 placements (alone, under retry, under a timeout that fires, under fallback) x 4 executions "
                        "(sync/async) with staggered starts, durations and success/failure patterns x optional cancellation; traces validated by TLC; open/half-open predicates on the trace; state and remaining "
